@@ -15,7 +15,7 @@ pub struct Spec {
     pub space_az: f32,     // space AZIMUTH (clockwise from north, BDL)
     pub global_dev: f32,   // BUILD-PARAMETERS AZIMUTH
     pub window: usize,     // 0 none, 1 setback 0, 2 setback 0.2
-    pub shade: usize,      // 0 none, 1 rectangle, 2 vertices vertical, 3 vertices 45 deg, 4 vertices horizontal, 5..7 rectangle facing down / up / sloped
+    pub shade: usize,      // 0 none, 1 rectangle, 2 vertices vertical, 3 vertices 45 deg, 4 vertices horizontal, 5..7 rectangle facing down / up / sloped, 8 vertices: cross with twelve corners
     pub poly_roof: bool,   // roof defined by its own polygon (tilt 30)
 }
 
@@ -179,9 +179,23 @@ pub fn geometry_bdl(s: &Spec) -> String {
         2 => t.push_str("\"Sombra001\" = BUILDING-SHADE\n    TRAN = 0\n    REFL = 0.7\n    V1 =( 2, -5, 0 )\n    V2 =( 8, -6, 0 )\n    V3 =( 8, -6, 4 )\n    V4 =( 2, -5, 4 )\n    ..\n"),
         3 => t.push_str("\"Sombra001\" = BUILDING-SHADE\n    TRAN = 0\n    REFL = 0.7\n    V1 =( 2, -5, 1 )\n    V2 =( 8, -5, 1 )\n    V3 =( 8, -8, 4 )\n    V4 =( 2, -8, 4 )\n    ..\n"),
         4 => t.push_str("\"Sombra001\" = BUILDING-SHADE\n    TRAN = 0\n    REFL = 0.7\n    V1 =( 2, -1, 5 )\n    V2 =( 2, -4, 5 )\n    V3 =( 7.5, -4, 5 )\n    V4 =( 7.5, -1, 5 )\n    ..\n"),
+        8 => {
+            let mut b = String::from("\"Sombra001\" = BUILDING-SHADE\n    TRAN = 0\n    REFL = 0.7\n");
+            for (i, p) in cross_shade_corners().iter().enumerate() {
+                b += &format!("    V{} =( {}, {}, {} )\n", i + 1, f(p[0] as f32), f(p[1] as f32), f(p[2] as f32));
+            }
+            b += "    ..\n";
+            t.push_str(&b);
+        }
         _ => {}
     }
     t
+}
+
+/// a cross with twelve corners in a plane sloped like shade 3 (u along +x, v along (0,-0.6,0.8)), from (2,-5,1)
+pub fn cross_shade_corners() -> Vec<P3> {
+    let uv = [(1.0, 0.0), (2.0, 0.0), (2.0, 1.0), (3.0, 1.0), (3.0, 2.0), (2.0, 2.0), (2.0, 3.0), (1.0, 3.0), (1.0, 2.0), (0.0, 2.0), (0.0, 1.0), (1.0, 1.0)];
+    uv.iter().map(|(u, v): &(f64, f64)| [2.0 + u * 1.5, -5.0 - 0.6 * v * 1.25, 1.0 + 0.8 * v * 1.25]).collect()
 }
 
 /// azimuth (BDL: clockwise from north = +y) of the outward normal of edge a->b of a counter-clockwise outline
@@ -335,6 +349,7 @@ pub fn reference_shade(s: &Spec) -> Option<Vec<P3>> {
         2 => Some(vec![b([2.0, -5.0, 0.0]), b([8.0, -6.0, 0.0]), b([8.0, -6.0, 4.0]), b([2.0, -5.0, 4.0])]),
         3 => Some(vec![b([2.0, -5.0, 1.0]), b([8.0, -5.0, 1.0]), b([8.0, -8.0, 4.0]), b([2.0, -8.0, 4.0])]),
         4 => Some(vec![b([2.0, -1.0, 5.0]), b([2.0, -4.0, 5.0]), b([7.5, -4.0, 5.0]), b([7.5, -1.0, 5.0])]),
+        8 => Some(cross_shade_corners().into_iter().map(b).collect()),
         _ => None,
     }
 }
@@ -350,7 +365,7 @@ pub fn all_specs(tier: Tier) -> Vec<Spec> {
                     for space_az in [0.0f32, 90.0, 30.0] {
                         for &global_dev in &devs {
                             for window in 0..3 {
-                                for shade in 0..8 {
+                                for shade in 0..9 {
                                     // shade and window dimensions are independent of the rest: pair them cyclically in quick
                                     if tier == Tier::Quick && (shade + window + outline) % 3 != 0 {
                                         continue;
@@ -441,6 +456,11 @@ pub fn write_synthetic_dirs(root: &str, tier: Tier) {
         let kept: Vec<&str> = text.lines().filter(|l| !l.starts_with("Muro")).collect();
         let _ = std::fs::write(format!("{}/KyGananciasSolares.txt", d), kept.join("\n").chars().map(|c| if (c as u32) < 256 { c as u32 as u8 } else { b'?' }).collect::<Vec<u8>>());
     }
+    // the project of gen01 with every name kept and other contents behind the project's own material and layers
+    let d = format!("{}/same-names-other-contents", root);
+    std::fs::create_dir_all(&d).unwrap();
+    let t = ctehexml_text(&specs[1]).replacen("CONDUCTIVITY = 0.5\n    DENSITY = 1000", "CONDUCTIVITY = 0.25\n    DENSITY = 1400", 1).replacen("THICKNESS = ( 0.24)", "THICKNESS = ( 0.115)", 1);
+    std::fs::write(format!("{}/same-names-other-contents.ctehexml", d), t).unwrap();
     let d = format!("{}/only-tbl", root);
     std::fs::create_dir_all(&d).unwrap();
     let _ = std::fs::copy(format!("{}/gen01.ctehexml", src), format!("{}/only-tbl.ctehexml", d));
